@@ -1159,12 +1159,22 @@ package kafka
 //@ func (*crc32Writer).writeInt64
 //@   trusted checksum accumulator
 //@   modifies *w
-//@ func (*crc32Writer).writeBytes
+// null versus empty: the checksum pass and the output pass must hash/write the same length prefix (-1 exactly for a nil
+// key or value, the length otherwise), or the message carries a checksum that does not match its own bytes.
+//@ func (*crc32Writer).update
+//@   trusted folds b into the running CRC
+//@   modifies *w
+//@ func (*crc32Writer).writeInt32
 //@   trusted checksum accumulator
 //@   modifies *w
+//@ func (*crc32Writer).writeBytes
+//@   option noframe
+//@   modifies *w
+//@   callsite (*crc32Writer).writeInt32 requires $1 == ite(isnil(b), -1, int32(len(b)))
 //@ func (*writeBuffer).writeBytes
 //@   requires len(b) <= 0x7ffffff0
 //@   modifies wb.$wn, wb.b
+//@   callsite (*writeBuffer).writeInt32 requires $1 == ite(isnil(b), -1, int32(len(b)))
 //@   ensures wb.$wn == old(wb.$wn) + 4 + len(b)
 //@ func messageSize
 //@   pure
